@@ -79,6 +79,10 @@ Offsets(R) == \A i \in 1..Len(Threads(R)) : \A j \in 1..Len(F(Threads(R)[i], "fr
         /\ ~IsNull(F(fr, "module_offset"))
         /\ Limbs(F(fr, "module_offset").v) = Sub(Limbs(F(fr, "offset").v), ModBase(R, F(fr, "module").v))
         /\ (~IsNull(F(fr, "function_offset")) => ~Lt(Limbs(F(fr, "module_offset").v), Limbs(F(fr, "function_offset").v)))   \* function base >= module base
+\* "missing_symbols: whether we had symbols for this frame (currently redundant with `function`)"
+MissingSymbolsMirror(R) == \A i \in 1..Len(Threads(R)) : \A j \in 1..Len(F(Threads(R)[i], "frames").v) : LET fr == F(Threads(R)[i], "frames").v[j] IN
+   (Has(fr, "missing_symbols") /\ IsBool(F(fr, "missing_symbols"))) =>
+        (F(fr, "missing_symbols").v <=> (~Has(fr, "function") \/ IsNull(F(fr, "function"))))
 IpNames == {"eip", "rip", "pc", "srr0"}
 \* the crashing-thread copy is the indexed thread plus the registers of frame 0
 Copy(R, req) == IF ~Has(R, "crashing_thread") \/ IsNull(F(R, "crashing_thread")) THEN req = 0 \/ Len(F(Threads(R)[req], "frames").v) >= 0
@@ -106,6 +110,7 @@ Verdict(i, r) ==
        /\ (Schema(r.report, r.width) =>
             /\ (~Counts(r.report) => PrintT(<<"VERDICT", i, "CountsAndNumbering">>))
             /\ (~Offsets(r.report) => PrintT(<<"VERDICT", i, "Offsets">>))
+            /\ (~MissingSymbolsMirror(r.report) => PrintT(<<"VERDICT", i, "MissingSymbolsMirror">>))
             /\ (~Copy(r.report, r.req) => PrintT(<<"VERDICT", i, "CrashingThreadCopy">>))
             /\ (~Mirrors(r.report, r.modules) => PrintT(<<"VERDICT", i, "ModulesMirror">>))))
 TInit == l = 1
